@@ -43,8 +43,11 @@ pub fn gen_flow(
             let raises = raises.into_iter().map(Result::unwrap).collect();
 
             let raises_before = env.raises_caught.clone();
-            let outer_env = generate(expr_or_stmt, &env.raises_caught(&raises), ctx, constr)?
-                .raises_caught(&raises_before);
+            // only the handled expression is covered by the arms: restore what was caught before
+            let outer_env = Environment {
+                raises_caught: raises_before,
+                ..generate(expr_or_stmt, &env.raises_caught(&raises), ctx, constr)?
+            };
 
             constrain_cases(ast, &None, cases, &outer_env, ctx, constr)
         }
